@@ -2,9 +2,9 @@
    C06-pncbo-keep-masks, C06-mask-dims-list, C06-mask-int-values).
    Property statements only.  Model: Model/Arith.v (elementwise over the row-major cells, hence
    all shapes; the scalar results r are inputs supplied by numpy, the model decides mask
-   placement).  eval() is NOT modelled in Coq (it is compared with direct numpy evaluation by
-   the Python oracle of the correspondence). *)
-From PNC Require Import Base.Util Model.Arith Proofs.ArithProofs.
+   placement).  eval(): Model/EvalExpr.v, for assignment statements over names, constants, unary
+   minus and + - * / (other expression forms are compared with numpy by the Python oracle only). *)
+From PNC Require Import Base.Util Model.Arith Proofs.ArithProofs Model.EvalExpr Proofs.EvalProofs.
 Require Import QArith.
 Local Close Scope Q_scope.
 Local Open Scope nat_scope.
@@ -119,3 +119,58 @@ Example C06_mask_inhabited :
             [MV 10 false [3] [3] [MC (Fin (7#1)) true; MC (Fin (1#1)) false; MC (Fin (5#1)) false]]
   = MOk [[None; Some (Fin (1#1)); None]].
 Proof. vm_compute. split; reflexivity. Qed.
+
+(* (8) eval(): an eval assignment creates variables equal to evaluating the expressions, statement
+   after statement, on the file's arrays (exec); every other variable of the result is a variable
+   of the base file (all variables when copyall, else the coordinate variables) with identical
+   contents.  All statement lists, expression depths, array lengths, masked or plain arrays. *)
+Theorem C06_eval_creates_expr : forall f copyall ss r,
+  impl_eval f copyall ss = EOk r ->
+  exists en tkey base,
+    exec (file_env f) ss = Some en /\ template f ss = Some tkey /\ base_vars f copyall tkey = Some base
+    /\ (forall k, is_target ss k = true -> exists a, elookup k en = Some (VA a) /\ elookup k r = Some a)
+    /\ (forall k, is_target ss k = false -> elookup k r = elookup k base).
+Proof. exact eval_creates_expr. Qed.
+Print Assumptions C06_eval_creates_expr.
+
+Theorem C06_eval_single : forall f copyall k e r,
+  impl_eval f copyall [(k, e)] = EOk r ->
+  exists a, eval_expr (file_env f) e = Some (VA a) /\ elookup k r = Some a.
+Proof. exact eval_single. Qed.
+Print Assumptions C06_eval_single.
+
+Theorem C06_eval_copyall_untouched : forall f ss r k,
+  impl_eval f true ss = EOk r -> is_target ss k = false -> elookup k r = elookup k (ef_vars f).
+Proof. exact eval_copyall_untouched. Qed.
+Print Assumptions C06_eval_copyall_untouched.
+
+(* (9) the cellwise meaning used by (8): a binary operation on two arrays is the operation on
+   corresponding cells; the result cell is masked iff an operand cell is, or (numpy.ma arrays
+   only) a division meets a zero divisor or yields a non-finite quotient *)
+Theorem C06_eval_binop_cellwise : forall o p q,
+  length (e_cells p) = length (e_cells q) ->
+  val_bin o (VA p) (VA q)
+  = Some (VA (EA (e_ma p || e_ma q) (map2 (cell_bin o (e_ma p || e_ma q)) (e_cells p) (e_cells q)))).
+Proof. exact val_bin_cells. Qed.
+Print Assumptions C06_eval_binop_cellwise.
+
+Theorem C06_eval_cell_mask : forall o is_ma c d,
+  msk (cell_bin o is_ma c d) = true <->
+  (msk c = true \/ msk d = true \/
+   (is_ma = true /\ o = ODiv /\ (rv_is_zero (raw d) = true \/ nonfin (rv_bin ODiv (raw c) (raw d)) = true))).
+Proof. exact cell_bin_mask. Qed.
+Print Assumptions C06_eval_cell_mask.
+
+(* file with A = [1, --] (masked-typed), B = [0, 3] (plain), coordinate x; `C = A / B; D = C + 1` *)
+Example C06_eval_inhabited :
+  let f := EF [(10, EA true [MC (Fin (1#1)) false; MC (Fin (5#1)) true]);
+               (11, EA false [MC (Fin (0#1)) false; MC (Fin (3#1)) false]);
+               (2, EA false [MC (Fin (0#1)) false; MC (Fin (1#1)) false])] [2] in
+  let ss := [(12, EBin ODiv (EVar 10) (EVar 11)); (13, EBin OAdd (EVar 12) (EConst (1#1)%Q))] in
+  match impl_eval f false ss with
+  | EOk r => map fst r = [2; 12; 13]
+             /\ option_map (fun a => map visible (e_cells a)) (elookup 12 r) = Some [None; None]
+             /\ spec_eval_ok f false ss (map (fun p => (fst p, map visible (e_cells (snd p)))) r) = true
+  | ERaise => False
+  end.
+Proof. vm_compute. repeat split; reflexivity. Qed.
